@@ -21,6 +21,10 @@ def corrupt(rs, k, how):
         seq = seq[:7] + "Z" + seq[8:]
     elif how == "digit":
         seq = seq[:7] + "1" + seq[8:]
+    elif how == "cr":
+        seq = seq[:7] + "\r" + seq[8:]       # a carriage return that is not part of a line end
+    elif how == "ctrl":
+        seq = seq[:7] + "\x1f" + seq[8:]
     rs[k] = (name, seq)
     return rs
 
@@ -86,11 +90,14 @@ def scenarios(thorough):
             for k in positions:
                 for how in (["short", "long"] if thorough else ["short"]):
                     add("unequal-rows", cmd, {fn: fasta(corrupt(texts(fn), k, how))}, tag="%s@%d%s" % (fn, k, how))
-                for how in (["badsym", "digit"] if thorough else ["badsym"]):
+                for how in (["badsym", "digit", "cr", "ctrl"] if thorough else ["badsym", ["cr", "ctrl", "digit"][k % 3]]):
                     add("non-iupac", cmd, {fn: fasta(corrupt(texts(fn), k, how))}, tag="%s@%d%s" % (fn, k, how))
+                # the same symbol in a folded file: on the second line of its record (the lines of a record need not be read alike)
+                add("non-iupac", cmd, {fn: fasta(corrupt(texts(fn), k, "badsym"), wrap=5)}, tag="%s@%dwrapped" % (fn, k))
     for cmd, files in REFS.items():
         for fn in files:
             add("non-iupac", cmd, {fn: fasta(corrupt([("ref", REF)], 0, "badsym"))}, tag=fn)
+            add("non-iupac", cmd, {fn: fasta(corrupt([("ref", REF)], 0, "badsym"), wrap=5)}, tag=fn + "-wrapped")
             add("two-reference-records", cmd, {fn: fasta([("ref", REF), ("ref2", REF)])}, tag=fn)
     for cmd, files in INPUTS.items():
         for fn in files:
